@@ -1,10 +1,8 @@
 // ---- ANSI X12 encodation, encoder side (ISO/IEC 16022 5.2.7, Table 7) ----
-pub open spec fn x12_native(b: u8) -> bool { b == 13 || b == 42 || b == 62 || b == 32 || (48 <= b <= 57) || (65 <= b <= 90) }
 pub open spec fn x12_enc_val(b: u8) -> int {
     if b == 13 { 0 } else if b == 42 { 1 } else if b == 62 { 2 } else if b == 32 { 3 }
     else if 48 <= b <= 57 { b - 48 + 4 } else { b - 65 + 14 }
 }
-pub open spec fn all_native(s: Seq<u8>) -> bool { forall|i: int| 0 <= i < s.len() ==> x12_native(#[trigger] s[i]) }
 // 5.2.5.2: three values (C1, C2, C3) are packed as 1600*C1 + 40*C2 + C3 + 1 into two codewords
 pub open spec fn pack3(c1: int, c2: int, c3: int) -> Seq<u8> {
     let v = 1600 * c1 + 40 * c2 + c3 + 1;
